@@ -125,6 +125,18 @@ pub fn profile(name: &str) -> Profile {
             const_cap: 0.8,
             ..base
         },
+        "parallel" => Profile {
+            name: "parallel",
+            n_trees: &[Some(8), Some(12), Some(20), Some(9)],
+            split_after: &[Some(1), Some(2), Some(1), None],
+            dims: &[2, 3, 5],
+            rounds: (2, 4),
+            ops_per_round: (2, 12),
+            multi_index: 0.1,
+            p_commit: 0.3,
+            p_abort: 0.0,
+            ..base
+        },
         other => panic!("unknown profile {other}"),
     }
 }
@@ -258,7 +270,7 @@ pub fn gen_history(seed: u64, p: &Profile) -> History {
             ops.push(Op::Abort);
         }
     }
-    History { indexes, ops, map_size: 256 * 1024 * 1024, label: format!("{}:{}", p.name, seed) }
+    History { indexes, ops, map_size: 256 * 1024 * 1024, label: format!("{}:{}", p.name, seed), faults: vec![], max_polls: 5_000_000, sides: true }
 }
 
 pub fn gen_opts(rng: &mut StdRng, p: &Profile, const_cap: bool, fixed: Option<usize>) -> BuildOpts {
@@ -294,5 +306,8 @@ pub fn straight_line() -> History {
         ],
         map_size: 64 * 1024 * 1024,
         label: "straight-line".into(),
+        faults: vec![],
+        max_polls: 5_000_000,
+        sides: true,
     }
 }
